@@ -28,13 +28,14 @@ theorem Res.of_eff_incr {s s1 : Sess} {n : Int} {W q : List OutMsg} (h : Eff s s
 def IsLogon (cfg : Cfg) (m : OutMsg) : Prop := m.kind = "A" ∧ (cfg.bs = 5 → cfg.applVer ≠ "" → m.f.has 1137 = true)
 
 /-- header bookkeeping (number, tag 369, reply marker) does not matter: any message with the kind and fields of `logonMsg` -/
-theorem isLogon_of (x : Sess) (mL : OutMsg) (hk : mL.kind = "A") (hf : mL.f = (logonMsg x false).f) : IsLogon x.cfg mL := by
+theorem isLogon_of (x : Sess) (mL : OutMsg) (nx : Option Int) (hk : mL.kind = "A") (hf : mL.f = (logonMsgX x false nx).f) :
+    IsLogon x.cfg mL := by
   refine ⟨hk, fun _ hv => ?_⟩
   have : x.cfg.applVer.isEmpty = false := (isEmpty_false_iff _).2 hv
   rw [hf]
-  simp [logonMsg, mkOut, Fields.has, this]
+  simp [logonMsgX, mkOut, Fields.has, this]
 
-theorem isLogon_logonMsg (x : Sess) (n : Int) : IsLogon x.cfg { logonMsg x false with seq := n } := isLogon_of x _ rfl rfl
+theorem isLogon_logonMsg (x : Sess) (n : Int) : IsLogon x.cfg { logonMsg x false with seq := n } := isLogon_of x _ _ rfl rfl
 
 theorem eff_logonReply (s : Sess) (im : InMsg) (hp : s.cfg.persist = true) (ho : s.out = true) :
     (s.cfg.initiator = true ∧ logonReply s im false = s) ∨
@@ -54,13 +55,13 @@ theorem eff_logonReply (s : Sess) (im : InMsg) (hp : s.cfg.persist = true) (ho :
       · exact Eff.refl s
     have hxp : x.cfg.persist = true := by rw [hX.fr.cfg]; exact hp
     have hxo : x.out = true := by rw [hX.fr.out]; exact ho
-    have h2 := eff_dropAndSend x ((logonMsg x false).inReplyTo im) ((outOK_logon x).re im) hxp hxo
+    have h2 := eff_dropAndSend x ((logonMsgRe x false im).inReplyTo im) ((outOK_logonX x _).re im) hxp hxo
     simp only [Bool.false_and, Bool.false_eq_true, if_false]
-    refine ⟨numbered x ((logonMsg x false).inReplyTo im), ?_, ?_, ?_⟩
-    · have := isLogon_of x (numbered x ((logonMsg x false).inReplyTo im)) rfl rfl
+    refine ⟨numbered x ((logonMsgRe x false im).inReplyTo im), ?_, ?_, ?_⟩
+    · have := isLogon_of x (numbered x ((logonMsgRe x false im).inReplyTo im)) _ rfl rfl
       rw [hX.fr.cfg] at this; exact this
     · show x.store.sender = _; rw [hX.snd]; omega
-    · have h3 : Eff s _ (0 + 1) ([] ++ [numbered x ((logonMsg x false).inReplyTo im)]) [] := hX.trans h2
+    · have h3 : Eff s _ (0 + 1) ([] ++ [numbered x ((logonMsgRe x false im).inReplyTo im)]) [] := hX.trans h2
       rw [show (0 : Int) + 1 = 1 from rfl, List.nil_append] at h3
       exact h3
   · left; exact ⟨rfl, by simp⟩
@@ -132,10 +133,13 @@ theorem handleLogon_pool {c : Ctx} (hc : CtxOK c) {s : Sess} (hs : s.cfg = c.cfg
   -- the reply
   have hp2 : s2.cfg.persist = true := by rw [hcfg2]; exact hc.persist
   have ho2 : s2.out = true := by rw [e2.fr.out]; exact ho
-  have hfin : ∀ x : Sess, ∀ n0 W q0, Eff s x n0 W q0 → ∃ s1, Eff s s1 n0 W q0 ∧
-      logonFinish x (toIn c.pcfg m) = if m.seq > s.store.target then (s1, some (.rej (.tooHigh m.seq s.store.target))) else (incrTarget s1, none) := by
-    intro x n0 W q0 hx
+  rw [logonTail_off _ _ _ (by rw [hcfg2]; exact hc.nx), pf_flag hc hw]
+  have hfin : ∀ x : Sess, ∀ n0 W q0, Eff s x n0 W q0 → ∀ ns : Int, ∃ s1, Eff s s1 n0 W q0 ∧
+      logonFinish x (toIn c.pcfg m) ns =
+        if m.seq > s.store.target then (s1, some (LogonErr.rej (Rej.tooHigh m.seq s.store.target))) else (incrTarget s1, none) := by
+    intro x n0 W q0 hx ns
     unfold logonFinish
+    rw [nxEval_off _ _ _ (by show x.cfg.nextExpected = false; rw [hx.fr.cfg, hs]; exact hc.nx)]
     simp only []
     generalize hx4 : ((x.setSentReset false).emit (Obs.armPeer (1200 * x.hb))).emit Obs.onLogon = x4
     have e4 : Eff s x4 n0 W q0 := by
@@ -153,12 +157,12 @@ theorem handleLogon_pool {c : Ctx} (hc : CtxOK c) {s : Sess} (hs : s.cfg = c.cfg
     · simp [h2]
   rcases eff_logonReply s2 (toIn c.pcfg m) hp2 ho2 with ⟨hi, hr⟩ | ⟨hi, mL, hl1, hl2, hr⟩
   · rw [hr]
-    obtain ⟨s3, e3, h3⟩ := hfin s2 0 [] s.toSend e2
+    obtain ⟨s3, e3, h3⟩ := hfin s2 0 [] s.toSend e2 s.store.sender
     exact ⟨s3, 0, [], s.toSend, Or.inl ⟨by rw [← e2.fr.cfg]; exact hi, rfl, rfl, rfl⟩, e3, h3⟩
   · have e3 : Eff s (logonReply s2 (toIn c.pcfg m) false) 1 [mL] [] := by
       have := e2.trans hr
       simpa using this
-    obtain ⟨s3, e3', h3⟩ := hfin _ 1 [mL] [] e3
+    obtain ⟨s3, e3', h3⟩ := hfin _ 1 [mL] [] e3 s.store.sender
     refine ⟨s3, 1, [mL], [], Or.inr ⟨by rw [← e2.fr.cfg]; exact hi, rfl, rfl, mL, by rw [← e2.fr.cfg]; exact hl1, ?_, rfl⟩, e3', h3⟩
     rw [hl2, e2.snd]; omega
 
